@@ -9,6 +9,15 @@ LEVEL_NOTE = ("Trusted base: clang 14 front end and CFG builder, the gsa-extract
               "Assumes the shipped configuration (GALOIS_USE_LONGJMP_ABORT, NDEBUG).")
 
 CHECKS = {
+    "C01": ("exhaustive evaluation of the structural obligations of work conservation (commit publishes exactly the push "
+            "buffer then clears it, abort re-queues once and never publishes, popped item = processed item, no fast "
+            "push-back when aborts are possible, aborted work retried every round, every work result reaches the "
+            "termination detector, exit only after global termination and empty worklist, retry path re-arms behind a "
+            "barrier, worklist lock pairing / guarded-by / chunk-slot ownership, OwnerComputes flush) on every CFG path "
+            "of every ForEachExecutor instantiation of the worklist x trait matrix and of the worklist classes. Decides "
+            "these necessary conditions for all schedules and topologies at once; does not decide interleavings inside "
+            "lock-free paths or liveness under fairness.",
+            "CFG path rules, lock typestate (LOCK), linear chunk ownership (OWN) over clang AST facts", "4 C01"),
     "C02": ("exhaustive evaluation of the structural obligations of iteration isolation (try-lock -> set-owner -> "
             "neighbourhood protocol, release walk, commit/cancel after every operator call on normal and conflict "
             "paths, method-flag table, access control) on every CFG path of the anchored functions and of every "
